@@ -175,19 +175,41 @@ func (s *snapper) walk(v reflect.Value, path string) {
 	}
 }
 
-func snapshotHash(roots []any) (uint64, int) {
-	s := newSnapper(false)
+func (s *snapper) walkRoots(roots []any) {
 	for i, r := range roots {
+		if g, ok := r.(globalRoot); ok {
+			// package-level variable of the library: snapshotted under its name
+			s.walk(reflect.ValueOf(g.Ptr), s.sub("", "global("+g.Name+")"))
+			continue
+		}
 		s.walk(reflect.ValueOf(r), s.sub("", "root"+strconv.Itoa(i)))
 	}
+}
+
+func snapshotHash(roots []any) (uint64, int) {
+	s := newSnapper(false)
+	s.walkRoots(roots)
 	return s.h, s.count
+}
+
+// globalHashes hashes every package-level variable separately: a write to process-global state
+// happens once per process (first use), so it cannot be reproduced on a rebuilt model; the
+// variable is then named by comparing these hashes.
+func globalHashes(roots []any) map[string]uint64 {
+	res := map[string]uint64{}
+	for _, r := range roots {
+		if g, ok := r.(globalRoot); ok {
+			s := newSnapper(false)
+			s.walk(reflect.ValueOf(g.Ptr), "")
+			res[g.Name] = s.h
+		}
+	}
+	return res
 }
 
 func snapshotLines(roots []any) []string {
 	s := newSnapper(true)
-	for i, r := range roots {
-		s.walk(reflect.ValueOf(r), "root"+strconv.Itoa(i))
-	}
+	s.walkRoots(roots)
 	return s.lines
 }
 
@@ -232,6 +254,11 @@ func changedField(a, b []string) string {
 				}
 			}
 			if last == "" {
+				if strings.HasPrefix(p, "global(") {
+					if k := strings.Index(p, ")"); k > 0 {
+						return p[:k+1] // a package-level variable itself (slice / map grown in place)
+					}
+				}
 				return "root"
 			}
 			return strings.Replace(last, ":", ".", 1)
